@@ -10,16 +10,17 @@
     (a ciphertext+tag pair belongs to one key, one nonce, one aad).
   * `DeflateLaws Z` — `inflate (deflate b) = some b`.
   * `RoundTrips h x` — the whole-envelope byte codec round-trips on `x`
-    (`from_tagged_cbor_data (tagged_cbor().to_cbor_data()) = x`).  This is the conclusion of
-    C05 `decode_encode` (from `CodecLaws`, `Inv h x`, `EncShape x`, `Encodable x`);
-    `roundTrips_of_codecLaws` in `Lemmas/ObscureLemmas.lean` is that bridge.  It is taken
-    per envelope and not as `∀ e, Inv h e → decode h (encode e) = .ok e`, because the
-    latter is *false* (an `Inv` envelope may hold an encrypted element with a nonce that
-    is not 12 bytes, or a compressed element with a checksum ≥ 2^32, which the decoder
-    refuses): `not_forall_inv_roundTrips` in `Lemmas/ObscureLemmas.lean`.
+    (`from_tagged_cbor_data (tagged_cbor().to_cbor_data()) = x`).  This is, verbatim, the
+    conclusion of C05 `decode_encode` (from `CodecLaws`, `Inv h x`, `EncShape x`,
+    `Encodable x`), so `decode_encode h L x hi hs he : RoundTrips h x`.  It is taken per
+    envelope and not as `∀ e, Inv h e → decode h (encode e) = .ok e`, because the latter is
+    *false* for every hash (an `Inv` envelope may hold an encrypted element whose nonce is
+    not 12 bytes, or a compressed element whose data is longer than its declared size, and
+    the decoder refuses those): `Obs.not_forall_inv_roundTrips` in
+    `Lemmas/ObscureLemmas.lean`.
   * `AadReadsBack` — the additional data written by `encrypt_with_digest` reads back as
     the digest (`EncryptedMessage::opt_digest`).  It is *proved* for the model codec
-    (`aadReadsBack` in `Lemmas/ObscureLemmas.lean`), so no theorem takes it as a
+    (`Obs.aadReadsBack` in `Lemmas/ObscureLemmas.lean`), so no theorem takes it as a
     hypothesis.
 -/
 import EnvVerif.Model.Inv
